@@ -29,9 +29,9 @@ theorem serverGet_plain (c : Codec) (body : Bytes) (nm ct em : List Char) (acc :
   simp [serverGet, serverStore]
 
 theorem range_in_bounds (x : Bytes) (off size : Nat) (hs : 0 < size) (hb : off + size ≤ x.length) :
-    (if size = 0 ∨ off > x.length then none else some ((x.drop off).take size)) = some ((x.drop off).take size) := by
+    (if size = 0 ∨ off ≥ x.length then none else some ((x.drop off).take size)) = some ((x.drop off).take size) := by
   have h1 : ¬ size = 0 := by omega
-  have h2 : ¬ off > x.length := by omega
+  have h2 : ¬ off ≥ x.length := by omega
   simp [h1, h2]
 
 theorem decide1_inputCompressed (i : UpIn) (h : i.inputCompressed = true) : decide1 i = (i.mime, false) := by
